@@ -26,7 +26,7 @@ func init() {
 		Level: "exploration",
 		Rule: "complete grid: 23 labels (16 registered, 258-260, unknown +/- int, tstr) x 20 value kinds x {protected, unprotected} x {encode, decode} x 10 Go integer spellings of the label; all IV / Partial IV pairs (same bucket, across buckets, spellings mixed); crit x {names present label, absent label, label only in the other bucket, differently spelt label, text label, empty, non-label entries}; duplicate labels under different spellings; " +
 			"each header set is also carried through Sign1Message, UntaggedSign1Message, SignMessage (body and signature layer), Signature and Countersignature codecs. Thorough adds random multi-parameter sets. Every cell is non-trivial (three verdicts compared); distinct = grid cell.",
-		Assume: []string{"content-type strings in the grid are clear-cut (a/b, ab, empty, leading/trailing space); uint64 labels above MaxInt64 are outside the model"},
+		Assume: []string{"content-type strings in the three-verdict grid are clear-cut (a/b, ab, empty, leading/trailing space); for 21 texts whose status RFC 9052 leaves open only encode/decode symmetry is judged", "Go-specific values (nil slices, RawMessage, Tag, typed containers, named types, unsigned integers above 2^63-1) have no reference verdict on acceptance: only produced => conforming and decodable"},
 		Run:    runC13,
 	})
 }
